@@ -28,11 +28,12 @@ structure Cfg where
   fRandom : Nat
   fPerSyllable : Nat
 
-/-- `u32::count_ones` -/
-def popCount : Nat → Nat
-  | 0 => 0
-  | n + 1 => (n + 1) % 2 + popCount ((n + 1) / 2)
-decreasing_by omega
+/-- `u32::count_ones` (32 bit positions) -/
+def popCount (n : Nat) : Nat := go 32 n
+where
+  go : Nat → Nat → Nat
+    | 0, _ => 0
+    | fuel + 1, n => n % 2 + go fuel (n / 2)
 
 /-- `glyph_flag::DEFINED.count_ones() + 1` — the first bit handed to a feature -/
 def Cfg.firstBit (c : Cfg) : Nat := popCount c.flagsDefined + 1
@@ -177,29 +178,33 @@ def findFeature (c : Cfg) (font : Font) (info : Info) : Option Nat × Option Nat
      if font.present 1 then font.anyFeature 1 info.tag else none)
   else (none, none)
 
+/-- the `required_stage[table_index] = info.stage[table_index]` update -/
+def reqUpd (font : Font) (t tag old new : Nat) : Nat :=
+  if font.present t ∧ (font.required t).map (·.2) = some tag then new else old
+
+/-- the pushed feature_map_t -/
+def mkFMap (c : Cfg) (info : Info) (idx : Option Nat × Option Nat) (shift mask : Nat) : FMap :=
+  { tag := info.tag, index0 := idx.1, index1 := idx.2, stage0 := info.stage0, stage1 := info.stage1,
+    shift, mask, oneMask := (1 <<< shift) &&& mask,
+    autoZwnj := info.flags &&& c.fManualZwnj = 0, autoZwj := info.flags &&& c.fManualZwj = 0,
+    random := info.flags &&& c.fRandom ≠ 0, perSyllable := info.flags &&& c.fPerSyllable ≠ 0 }
+
 /-- one iteration of `for info in &self.feature_infos` in collect_feature_maps -/
 def allocStep (c : Cfg) (font : Font) (st : Alloc) (info : Info) : Alloc :=
   if skipped c st info then st
   else
-    let req (t : Nat) (old new : Nat) : Nat :=
-      if font.present t ∧ (font.required t).map (·.2) = some info.tag then new else old
-    let st := { st with req0 := req 0 st.req0 info.stage0, req1 := req 1 st.req1 info.stage1 }
-    let (i0, i1) := findFeature c font info
-    if !(i0.isSome || i1.isSome) ∧ info.flags &&& c.fHasFallback = 0 then st
+    let st1 := { st with req0 := reqUpd font 0 info.tag st.req0 info.stage0,
+                         req1 := reqUpd font 1 info.tag st.req1 info.stage1 }
+    let idx := findFeature c font info
+    if !(idx.1.isSome || idx.2.isSome) ∧ info.flags &&& c.fHasFallback = 0 then st1
+    else if usesGlobalBit c info then
+      { st1 with feats := st1.feats ++ [mkFMap c info idx c.globalShift c.globalBit] }
     else
       let bits := bitsNeeded c info
-      let (shift, mask, st) :=
-        if usesGlobalBit c info then (c.globalShift, c.globalBit, st)
-        else
-          let shift := st.nextBit
-          let mask := (1 <<< (st.nextBit + bits)) - (1 <<< st.nextBit)
-          (shift, mask, { st with nextBit := st.nextBit + bits,
-                                  globalMask := st.globalMask ||| (((info.defaultValue <<< shift) % W32) &&& mask) })
-      { st with feats := st.feats ++ [{
-          tag := info.tag, index0 := i0, index1 := i1, stage0 := info.stage0, stage1 := info.stage1,
-          shift, mask, oneMask := (1 <<< shift) &&& mask,
-          autoZwnj := info.flags &&& c.fManualZwnj = 0, autoZwj := info.flags &&& c.fManualZwj = 0,
-          random := info.flags &&& c.fRandom ≠ 0, perSyllable := info.flags &&& c.fPerSyllable ≠ 0 }] }
+      let mask := (1 <<< (st.nextBit + bits)) - (1 <<< st.nextBit)
+      { st1 with feats := st1.feats ++ [mkFMap c info idx st.nextBit mask],
+                 nextBit := st.nextBit + bits,
+                 globalMask := st.globalMask ||| (((info.defaultValue <<< st.nextBit) % W32) &&& mask) }
 
 /-- the allocation loop over already deduplicated infos -/
 def allocAll (c : Cfg) (font : Font) (infos : List Info) : Alloc :=
